@@ -28,6 +28,275 @@ UNDECIDED = ["associativity/distributivity on concrete values (consequence of th
 LP = "lazy_poly"
 
 
+def _dispatch(chk, repo, mod, W):
+    """which arm of the constructor / operators runs for which kind of argument (decision tables, sa/dtable.py)"""
+    from ..dtable import Facts, walk, RAISE
+    chk.rule("C07.dispatch", "decision tables: the guards of Poly.__init__, __add__, __mul__, __eq__, __truediv__, __pow__, "
+                             "__call__, __hash__ and copy are evaluated for every kind of argument (list / dict / Poly / None "
+                             "/ number / Stream, zero given or not, 0 / 1 / several terms); the statements that run must be "
+                             "the documented ones - whatever the order and spelling of the tests")
+    n_tab = 0
+
+    def poly_rebind(name, value, F):
+        if isinstance(value, ast.Call) and unparse(value.func) == "Poly":
+            F.forget(name)
+            F.kinds[name] = {"Poly"}
+            F.truths["converted:" + name] = True
+        else:
+            F.forget(name)
+
+
+    # ---- constructor: store and zero value per kind of data
+    init = repo.find(LP, "Poly.__init__")
+    ib = docstring_free(init.body)
+    ip = [a.arg for a in init.args.args]
+    chk.require(len(ip) == 3, "Poly.__init__ signature unrecognised")
+    d_, z_ = ip[1], ip[2]
+
+    def _sec0():
+        nonlocal n_tab
+        pre = [st for st in ib if not isinstance(st, ast.For)]
+        want_store = {"list": ["OrderedDict(enumerate(%s))" % d_], "dict": ["OrderedDict(%s)" % d_],
+                      "Poly": ["OrderedDict(%s._data)" % d_, "OrderedDict(iteritems(%s._data))" % d_, "%s._data.copy()" % d_],
+                      "None": ["OrderedDict()"], "number": ["OrderedDict([(0, %s)])" % d_, "OrderedDict({0: %s})" % d_,
+                                                             "OrderedDict(((0, %s),))" % d_],
+                      "Stream": ["OrderedDict([(0, %s)])" % d_, "OrderedDict({0: %s})" % d_, "OrderedDict(((0, %s),))" % d_]}
+        kinds_of = {"list": {"list"}, "dict": {"dict"}, "Poly": {"Poly"}, "number": {"float", "Number"}, "Stream": {"Stream", "Iterable"}}
+        for dk in ("list", "dict", "Poly", "None", "number", "Stream"):
+            for zgiven in (False, True):
+                F = Facts(kinds=dict(([(d_, kinds_of[dk])] if dk != "None" else []) + ([(z_, {"float"})] if zgiven else [])),
+                          none=([d_] if dk == "None" else []) + ([] if zgiven else [z_]))
+                w = walk(pre, F, "Poly.__init__")
+                n_tab += 1
+                store = zero = None
+                for st in w.ran:
+                    if isinstance(st, ast.Assign) and len(st.targets) == 1:
+                        t = unparse(st.targets[0])
+                        if t == "self._data":
+                            store = unparse(st.value)
+                        elif t in ("self._zero", "self.zero"):
+                            zero = unparse(st.value)
+                wz = [z_] if zgiven else (["%s._zero" % d_, "%s.zero" % d_] if dk == "Poly" else ["0.0", "0"])
+                ok = w.end == "fall" and store in want_store[dk] and zero in wz
+                chk.decide(ok, "C07.dispatch", W("Poly.__init__"),
+                           "Poly(%s%s): store = %s, zero = %s" % (dk, ", zero" if zgiven else "", store, zero),
+                           why="documented: store %s, zero value %s%s" % (want_store[dk][0], wz[0],
+                                                                          " (guard raises)" if w.end == "raise" else ""), node=init)
+
+    # ---- constructor: compaction of one (key, value) item
+    def _sec1():
+        nonlocal n_tab
+        loops = [st for st in ib if isinstance(st, ast.For)]
+        chk.require(len(loops) == 1 and isinstance(loops[0].target, ast.Tuple) and len(loops[0].target.elts) == 2,
+                    "Poly.__init__: compaction loop not found")
+        kv, vv = [unparse(e) for e in loops[0].target.elts]
+        for kk in ("int", "float-integer", "float"):
+            for vk in ("zero", "nonzero", "Stream"):
+                F = Facts(kinds={kv: {"float"} if kk != "int" else {"int"}, vv: {"Stream"} if vk == "Stream" else {"float"}},
+                          truths={"%s.is_integer()" % kv: kk == "float-integer",
+                                  "%s == self.zero" % vv: vk != "nonzero", "%s == self._zero" % vv: vk != "nonzero",
+                                  "%s != self.zero" % vv: vk == "nonzero", "%s != self._zero" % vv: vk == "nonzero"},
+                          raising=["%s.is_integer()" % kv] if kk == "int" else [])
+                w = walk(loops[0].body, F, "Poly.__init__ compaction")
+                n_tab += 1
+                t = w.texts()
+                dels = t.count("del self._data[%s]" % kv)
+                moved = "%s = rint(%s)" % (kv, kv) in t and "self._data[%s] = %s" % (kv, vv) in t
+                want_moved = kk == "float-integer"
+                want_dropped = vk == "zero"
+                # moving deletes the old key first; dropping deletes the (new) key last
+                ok = w.end == "fall" and moved == want_moved and dels == int(want_moved) + int(want_dropped)
+                if ok and want_moved:
+                    ok = t.index("del self._data[%s]" % kv) < t.index("%s = rint(%s)" % (kv, kv)) < t.index("self._data[%s] = %s" % (kv, vv))
+                if ok and want_dropped:
+                    ok = t[-1] == "del self._data[%s]" % kv
+                chk.decide(ok, "C07.dispatch", W("Poly.__init__"),
+                           "item with %s power and %s coefficient: %s" % (kk, vk, "; ".join(t) or "kept as it is"),
+                           why="integer-valued float powers are re-keyed as ints; coefficients equal to the zero value are "
+                               "dropped unless they are Streams; everything else is kept", node=loops[0])
+
+    # ---- operators with a Poly / non-Poly operand
+    def _sec2():
+        nonlocal n_tab
+        for name in ("__add__", "__mul__", "__eq__"):
+            fn = repo.find(LP, "Poly." + name)
+            fb = docstring_free(fn.body)
+            o_ = fn.args.args[1].arg
+            for ok_kind in ("Poly", "number"):
+                F = Facts(kinds={o_: {"Poly"} if ok_kind == "Poly" else {"float"}}, types={"Poly"})
+                w = walk(fb, F, "Poly." + name, rebind=poly_rebind, strict=False)
+                n_tab += 1
+                converted = ok_kind == "Poly"
+                bad = None
+                for st in w.ran:
+                    if isinstance(st, ast.Assign) and len(st.targets) == 1 and unparse(st.targets[0]) == o_:
+                        converted = isinstance(st.value, ast.Call) and unparse(st.value.func) == "Poly" \
+                            and st.value.args and unparse(st.value.args[0]) == o_
+                        continue
+                    if not converted and any(isinstance(n, ast.Attribute) and isinstance(n.value, ast.Name) and n.value.id == o_
+                                             and n.attr in ("_data", "_zero", "zero", "terms") for n in ast.walk(st)):
+                        bad = st
+                        break
+                chk.decide(bad is None and w.end != "raise" or (w.end == "raise" and w.raised_in_guard is None and bad is None),
+                           "C07.dispatch", W("Poly." + name),
+                           "%s operand: %s" % (ok_kind, "used as a Poly after conversion" if ok_kind != "Poly" else "used as it is"),
+                           why="a non-Poly operand must be wrapped by Poly(..) before its terms are read (%s)"
+                               % (short(bad) if bad is not None else "guard raises"), node=fn)
+
+    # ---- division
+    def _sec3():
+        nonlocal n_tab
+        td = repo.find(LP, "Poly.__truediv__")
+        tb = docstring_free(td.body)
+        o_ = td.args.args[1].arg
+        for ok_kind, ln in (("Poly", 0), ("Poly", 1), ("Poly", 2), ("Poly", 5), ("number", None), ("Stream", None)):
+            if ok_kind == "Poly":
+                F = Facts(kinds={o_: {"Poly"}}, lens={o_: ln, o_ + "._data": ln}, types={"Poly"})
+            else:
+                F = Facts(kinds={o_: {"float"} if ok_kind == "number" else {"Stream", "Iterable"}}, types={"Poly"},
+                          raising=["len(%s)" % o_, "len(%s._data)" % o_])
+            w = walk(tb, F, "Poly.__truediv__")
+            n_tab += 1
+            last = unparse(w.last) if w.last is not None else ""
+            if ok_kind != "Poly":
+                ok = w.end == "return" and "delta" not in last and any(unparse(st).startswith("%s = thub(%s, " % (o_, o_)) for st in w.ran)
+                exp = "coefficient-wise division by the (hubbed) operand"
+            elif ln == 0:
+                ok = w.end == "raise" and "ZeroDivisionError" in last
+                exp = "ZeroDivisionError"
+            elif ln == 1:
+                ok = w.end == "return" and any("next(iteritems(%s._data))" % o_ in unparse(st) for st in w.ran)
+                exp = "division by the single term (powers shifted)"
+            else:
+                ok = w.end == "raise" and "NotImplementedError" in last
+                exp = "NotImplementedError"
+            chk.decide(ok, "C07.dispatch", W("Poly.__truediv__"),
+                       "p / %s%s -> %s" % (ok_kind, "" if ln is None else " with %d term(s)" % ln,
+                                            last[:70] or ("guard raises" if w.end == "raise" else "falls through")),
+                       why="documented: " + exp, node=td)
+
+    # ---- exponent normalisation of __pow__
+    def _sec4():
+        nonlocal n_tab
+        pw = repo.find(LP, "Poly.__pow__")
+        pb = docstring_free(pw.body)
+        o_ = pw.args.args[1].arg
+        for ek in ("Poly-constant", "Poly-empty", "Poly-general", "int"):
+            if ek == "int":
+                F = Facts(kinds={o_: {"int"}}, values={o_: 3}, lens={"self._data": 2, "self": 2}, types={"Poly"})
+            else:
+                terms = {"Poly-constant": [{"k": 0, "v": 3}], "Poly-empty": [], "Poly-general": [{"k": 0, "v": 3}, {"k": 2, "v": 1}]}[ek]
+                F = Facts(kinds={o_: {"Poly"}}, lens={"self._data": 2, "self": 2}, types={"Poly"},
+                          iters={"%s.terms()" % o_: terms, "iteritems(%s._data)" % o_: terms})
+
+            def pow_rebind(name, value, F_):
+                F_.forget(name)
+                if name == o_ and unparse(value) == "%s[0]" % o_:
+                    F_.kinds[o_] = {"int"}
+                    F_.values[o_] = 3
+            try:
+                w = walk(pb, F, "Poly.__pow__", rebind=pow_rebind)
+            except AnalysisError:
+                # the generator of the guard names its variables differently: fall back to the names it uses
+                raise
+            n_tab += 1
+            t = w.texts()
+            if ek == "Poly-general":
+                ok = w.end == "raise" and w.last is not None and "NotImplementedError" in unparse(w.last)
+                exp = "NotImplementedError"
+            elif ek == "int":
+                ok = "%s = %s[0]" % (o_, o_) not in t and w.end == "return"
+                exp = "the exponent is used as it is"
+            else:
+                ok = "%s = %s[0]" % (o_, o_) in t and w.end in ("return",)
+                exp = "the exponent is the constant term of the Poly"
+            chk.decide(ok, "C07.dispatch", W("Poly.__pow__"), "p ** <%s>: %s" % (ek, "; ".join(t)[:90] or w.end),
+                       why="documented: " + exp, node=pw)
+
+    # ---- copy / diff defaults, hash
+    def _sec5():
+        nonlocal n_tab
+        cp = repo.find(LP, "Poly.copy")
+        zname = cp.args.args[1].arg if len(cp.args.args) > 1 else "zero"
+        for zgiven in (False, True):
+            F = Facts(kinds={zname: {"float"}} if zgiven else {}, none=[] if zgiven else [zname])
+            w = walk(docstring_free(cp.body), F, "Poly.copy")
+            n_tab += 1
+            kw = None
+            if w.last is not None and isinstance(w.last.value, ast.Call):
+                kws = [k.value for k in w.last.value.keywords if k.arg == "zero"]
+                kw = unparse(kws[0]) if kws else (unparse(w.last.value.args[1]) if len(w.last.value.args) > 1 else None)
+            chk.decide(kw in ([zname] if zgiven else ["self.zero", "self._zero"]), "C07.dispatch", W("Poly.copy"),
+                       "copy(%s) -> zero = %s" % ("zero" if zgiven else "", kw),
+                       why="a copy keeps the zero value unless a new one is given", node=cp)
+        df = repo.find(LP, "Poly.diff")
+        dd = df.args.defaults
+        chk.decide(len(dd) == 1 and isinstance(dd[0], ast.Constant) and dd[0].value == 1, "C07.dispatch", W("Poly.diff"),
+                   "diff() default order = %s" % (unparse(dd[0]) if dd else "?"), why="diff() is the first derivative", node=df)
+        hs = repo.find(LP, "Poly.__hash__")
+        for has in (False, True):
+            F = Facts(truths={"hasattr(self, '_hash')": has})
+            w = walk(docstring_free(hs.body), F, "Poly.__hash__")
+            n_tab += 1
+            sets = any(isinstance(st, ast.Assign) and unparse(st.targets[0]) == "self._hash" for st in w.ran)
+            chk.decide(w.end == "return" and unparse(w.last.value) == "self._hash" and (sets or has), "C07.dispatch", W("Poly.__hash__"),
+                       "hash %s: %s" % ("already taken" if has else "first taken", "; ".join(w.texts())[:100]),
+                       why="the first hash() computes and stores the value that every later one returns", node=hs)
+
+    # ---- evaluation: which scheme for which request
+    def _sec6():
+        nonlocal n_tab
+        call = repo.find(LP, "Poly.__call__")
+        cb = docstring_free(call.body)
+        cpar = [a.arg for a in call.args.args]
+        v_, h_ = cpar[1], cpar[2] if len(cpar) > 2 else "horner"
+        for hval, ispoly in ((True, True), (True, False), (False, True), (False, False), ("auto", True), ("auto", False)):
+            F = Facts(kinds={v_: {"float"}}, truths={"%s == 0" % v_: False, "%s != 0" % v_: True},
+                      lens={"self._data": 3, "self": 3}, values={h_: hval}, types={"Poly", "Stream"})
+
+            def call_rebind(name, value, F_, ispoly=ispoly):
+                F_.forget(name)
+                if name == h_ and unparse(value) == "self.is_polynomial()":
+                    F_.values[h_] = ispoly
+            w = walk(cb, F, "Poly.__call__", rebind=call_rebind)
+            n_tab += 1
+            last = unparse(w.last) if w.last is not None else ""
+            want_horner = hval is True or (hval == "auto" and ispoly)
+            is_horner = "last_power" in last
+            is_direct = last.startswith("return sum(") and "self.terms()" in last
+            chk.decide(w.end == "return" and (is_horner if want_horner else is_direct), "C07.dispatch", W("Poly.__call__"),
+                       "p(x, horner=%r) on a %s -> %s" % (hval, "polynomial" if ispoly else "Laurent/other sum", last[:60]),
+                       why="horner=True forces the Horner scheme, False the direct sum, 'auto' picks Horner only for "
+                           "polynomials", node=call)
+        for vk in ("zero", "Stream", "Poly"):
+            F = Facts(kinds={v_: {"float"} if vk == "zero" else {vk} | ({"Iterable"} if vk == "Stream" else set())},
+                      truths={"%s == 0" % v_: True, "%s != 0" % v_: False},      # Stream == 0 is a (true) Stream: must not be asked
+                      lens={"self._data": 3, "self": 3}, values={h_: False}, types={"Poly", "Stream"})
+            w = walk(cb, F, "Poly.__call__", rebind=lambda n, v, F_: F_.forget(n))
+            n_tab += 1
+            last = unparse(w.last) if w.last is not None else ""
+            if vk == "zero":
+                ok = last == "return self[0]"
+            elif vk == "Stream":
+                ok = last.startswith("return sum(") and any(unparse(st).startswith("%s = thub(%s, " % (v_, v_)) for st in w.ran)
+            else:
+                ok = last.startswith("return Poly(sum(")
+            chk.decide(ok, "C07.dispatch", W("Poly.__call__"), "p(<%s>) -> %s" % (vk, last[:60]),
+                       why="p(0) is the constant term, p(q) a composition, p(stream) a hubbed term sum", node=call)
+        F = Facts(kinds={v_: {"float"}}, truths={"%s == 0" % v_: False}, lens={"self._data": 0, "self": 0}, values={h_: "auto"},
+                  types={"Poly", "Stream"})
+        w = walk(cb, F, "Poly.__call__", rebind=lambda n, v, F_: F_.forget(n))
+        n_tab += 1
+        chk.decide(w.last is not None and unparse(w.last) == "return self.zero", "C07.dispatch", W("Poly.__call__"),
+                   "empty polynomial -> %s" % (unparse(w.last) if w.last is not None else w.end), why="empty sum", node=call)
+    for sec in (_sec0, _sec1, _sec2, _sec3, _sec4, _sec5, _sec6):
+        try:
+            sec()
+        except AnalysisError as ex:
+            chk.defer(str(ex))
+    chk.floor("C07.dispatch", n_tab, 50, "scenarios walked")
+
+
 def run(chk, repo):
     mod = repo.mod(LP)
     W = lambda q: "%s:%s" % (mod.relpath, q)
@@ -108,6 +377,8 @@ def run(chk, repo):
             chk.decide(ok and zero_kw, "C07.funnel", W("Poly." + name), short(r),
                        why="results must be built by the compacting constructor, with the zero value passed on", node=r)
 
+    _dispatch(chk, repo, mod, W)
+
     # ------------------------------------------------------------------- eq
     chk.rule("C07.eq", "__eq__ = zeros equal and stores equal (same length, every key of one in the other with an equal "
                        "value, Streams by identity); __ne__ its complement; __hash__ over (frozenset of items, zero)")
@@ -175,6 +446,33 @@ def run(chk, repo):
     srcs = sorted(unparse(l.iter) for l in loops)
     chk.decide(srcs == ["thubbed_other", "thubbed_self"], "C07.product", W("Poly.__mul__"),
                "every term of self meets every term of other: loops over %s" % srcs,
+               why="product must range over all pairs of terms", node=mul)
+    # what the two loops range over: every (power, coefficient) of each operand, the coefficient behind a hub
+    seen_src = []
+    for l in loops:
+        nm = unparse(l.iter)
+        defs_ = [n for n in ast.walk(mul) if isinstance(n, ast.Assign) and unparse(n.targets[0]) == nm]
+        okd = len(defs_) == 1 and isinstance(defs_[0].value, (ast.ListComp, ast.GeneratorExp)) \
+            and len(defs_[0].value.generators) == 1 and not defs_[0].value.generators[0].ifs
+        if okd:
+            lc = defs_[0].value
+            g_ = lc.generators[0]
+            okd = isinstance(g_.target, ast.Tuple) and len(g_.target.elts) == 2 and isinstance(lc.elt, ast.Tuple) \
+                and len(lc.elt.elts) == 2 and unparse(g_.iter) in ("iteritems(self._data)", "iteritems(other._data)",
+                                                                      "self.terms()", "other.terms()", "self._data.items()",
+                                                                      "other._data.items()")
+            if okd:
+                kt, vt = [unparse(e) for e in g_.target.elts]
+                ke, ve = lc.elt.elts
+                okd = unparse(ke) == kt and (unparse(ve) == vt or (
+                    isinstance(ve, ast.Call) and canon_call(mod, ve) in ("lazy_stream:thub", "thub") and len(ve.args) == 2
+                    and unparse(ve.args[0]) == vt))
+                seen_src.append(unparse(g_.iter).split("(")[-1].split(".")[0].rstrip(")") if okd else "?")
+        chk.decide(okd, "C07.product", W("Poly.__mul__"), short(defs_[0]) if defs_ else nm + " undefined",
+                   why="the factors must be the (power, coefficient) pairs of the operand itself (coefficient possibly "
+                       "behind thub(coefficient, uses))", node=defs_[0] if defs_ else mul)
+    chk.decide(sorted(seen_src) == ["other", "self"], "C07.product", W("Poly.__mul__"),
+               "one loop over self's terms, one over other's: %s" % sorted(seen_src),
                why="product must range over all pairs of terms", node=mul)
     add = repo.find(LP, "Poly.__add__")
     ia = [n for n in ast.walk(add) if isinstance(n, ast.Assign) and unparse(n.targets[0]) == "intersect"]
